@@ -35,7 +35,10 @@ StepApply(s, e) == LET endp == WAdd(s.pos, WOfInt(e.n, 5))
                       ELSE << e.res = "err" /\ e.guard /\ e.after = e.before, s >>
 StepPos(s, e) == LET p8 == WResize(s.pos, 8)
                  IN IF WLe(p8, TypeMax(e.ty)) THEN <<e.res = "ok" /\ e.val = p8, s>> ELSE <<e.res = "ovf", s>>
+\* the harness put the instance, through its public fields, into the state the model has at position e.pos
+StepTeleport(s, e) == <<e.res = "ok", [s EXCEPT !.pos = e.pos]>>
 Step(s, e) == CASE e.ev = "seek" -> StepSeek(s, e)
+                [] e.ev = "teleport" -> StepTeleport(s, e)
                 [] e.ev = "apply" -> StepApply(s, e)
                 [] e.ev = "pos" -> StepPos(s, e)
 Init == \E i \in Starts : l = i /\ st = InitSt(Rec[i]) /\ bad = FALSE
